@@ -60,6 +60,7 @@ def verify(k, prop, cls=None, invariants=None, calls=None, hooks=None, extra_pre
     spec.pre_view = View(pre_st, args)
     cl0 = k.clauses(args, pre_st, pre_st, k.result.fresh('noresult') if k.result is not None else P_NONE, True)
     for lab, f in cl0.requires: st.assume(f)
+    spec.trace_spec = cl0.trace_spec
     if extra_pre:
         for f in extra_pre(View(pre_st, args)): st.assume(f)
     pre_pc = list(st.pc)
@@ -87,6 +88,8 @@ def verify(k, prop, cls=None, invariants=None, calls=None, hooks=None, extra_pre
             cl = k.clauses(args, pre_st, s1, res, True)
             info.exits.append(('return', path))
             for lab, f in cl.ensures: ob(f'post:{lab}', s1, f, meta={'exit': 'return', 'path': path})
+            if spec.trace_spec is not None:
+                ob('trace:all_expected_calls_were_made', s1, s1.tn == spec.trace_spec[1], kind='trace', meta={'exit': 'return', 'path': path})
             if cl.result_pv is not None:
                 ob('post:result', s1, to_val(res, s1) == to_val(cl.result_pv, s1), meta={'exit': 'return', 'path': path})
             for rc in cl.raises:
